@@ -61,9 +61,15 @@ class DocGen:
         self.env_pool = env_pool
         self.specials_pool = specials_pool
         self.zero = zero_arg_macros
+        self.dstack = []            # delimiters of the enclosing delimited arguments ('[]', '()', '<>')
 
-    def text(self):
+    def text(self, forbid=None):
         r = self.r
+        if forbid == '' and self.dstack and r.random() < 0.35:
+            # inside a child construct (group, math, brace argument, environment body) of a delimited argument
+            # the argument's own delimiters are ordinary characters again
+            ds = ''.join(self.dstack)
+            return ('text', r.choice('abxy') + ''.join(r.choice(ds) for _ in range(r.randint(1, 2))) + r.choice('abxy'))
         return ('text', ''.join(r.choice(TEXT_ALPHA) for _ in range(r.randint(1, 5))))
 
     def items(self, depth=0, math=False, forbid=''):
@@ -83,7 +89,7 @@ class DocGen:
         r = self.r
         k = r.random()
         if k < 0.28 or depth >= 4:
-            return self.text()
+            return self.text(forbid)
         if k < 0.38:
             return ('space',)
         if k < 0.43 and not math and self.sig.has_par and depth == 0:
@@ -96,7 +102,7 @@ class DocGen:
             op = r.choice(['$', '\\(', '$$', '\\['])
             if forbid and any(ch in op + CLOSE[op] for ch in forbid):
                 return self.text()
-            body = self.items(depth + 1, True, forbid)
+            body = self.items(depth + 1, True, '')
             if op == '$' and not body:
                 body = [self.text()]            # '$$' would be the display delimiter
             return ('math', op, body)
@@ -173,7 +179,9 @@ class DocGen:
                 if optional and r.random() < 0.5:
                     out.append(None)
                 else:
+                    self.dstack.append(o + c)
                     out.append(('delim', o, self.items(depth + 1, math, forbid + c), c))
+                    self.dstack.pop()
             elif k[0] == 'chars':
                 out.append(('chars', k[1]) if r.random() < 0.5 else None)
             elif k[0] == 'verb':
